@@ -51,7 +51,7 @@ GetOK(S1, r) ==
 (* Term that is not a tty, member of a hidden MultiProgress, removed from its           *)
 (* MultiProgress) performs no terminal operation at all.                                *)
 SilentBar(S0, S1, r) ==
-    \/ r.b \in S1.ids /\ ~Visible(S1, r.b) /\ (r.b \in S0.ids => ~Visible(S0, r.b)) /\ r.op \notin {"mp_remove"}
+    \/ r.b \in S1.ids /\ ~Visible(S1, r.b) /\ (r.b \in S0.ids => ~Visible(S0, r.b))
     \/ r.b = 0 /\ S1.mphid /\ r.op \in {"mp_println", "mp_clear", "mp_suspend", "mp_set_alignment"}
 
 (* A finished, visible bar whose last handle is dropped stays on the terminal as it  *)
